@@ -63,9 +63,9 @@ fn seeds() -> Vec<SeedMsg> {
     let rp = V::M(vec![(V::t("id"), V::t("example.org")), (V::t("name"), V::t("n")), (V::t("icon"), V::t("i"))]);
     let rp_url = V::M(vec![(V::t("id"), V::t("example.org")), (V::t("url"), V::t("u")), (V::t("name"), V::t("n"))]);
     // the same contexts with every map's members in reverse order (names before ids, ...)
-    let rev: Vec<SeedMsg> = v.iter().map(|s| SeedMsg { label: format!("{} (members reversed)", s.label), target: s.target.clone(), wire: reverse_maps(&s.wire) }).filter(|s| accepts_reordered(&s.target, &s.wire)).collect();
+    let rev: Vec<SeedMsg> = v.iter().map(|s| SeedMsg { label: format!("{} (members reversed)", s.label), target: s.target.clone(), wire: reverse_maps(&s.wire) }).filter(|s| accepts_reordered_plain(&s.target)).collect();
     v.extend(rev);
-    if accepts_reordered(&Target::Alone("user"), &reverse_maps(&user)) {
+    if accepts_reordered_plain(&Target::Alone("user")) {
         v.push(alone_seed("user", reverse_maps(&user)));
         v.last_mut().unwrap().label = "alone:user (members reversed)".into();
     }
